@@ -433,7 +433,8 @@ def _source_probe(src, big, steps, is_flat, source_text):
     """On a SEPARATE copy: 'ok' when the freshly built array reads back as `big` and the view of it as `source_text`;
     'source' when the plain array is already mis-encoded (the encode contract reports that), else a message."""
     import json
-    key = json.dumps([src, big, steps, is_flat])
+    # one probe per (source kind, row lengths, set of letters, view): what is probed does not depend on which letter sits where
+    key = json.dumps([src, [len(r) for r in big], sorted({b for r in big for b in r}), steps, is_flat])
     if key not in _PROBE:
         if len(_PROBE) > 20000:
             _PROBE.clear()
@@ -841,7 +842,7 @@ def _st(rows, cols=None):
     return {"rows": rows, "cols": cols}
 
 
-def standard_views(n, tier):
+def standard_views(n, full):
     """named views of an n-row array (n >= 2): every kind of the earlier indexing step, alone, combined with a column
     trim, and chained; the selections keep 2..6 rows where n allows (plus, thorough, 0- and 1-row selections)"""
     order = [n - 1, 0, 0, n // 2, 1][:max(2, min(5, n + 1))]             # reorders and repeats
@@ -865,7 +866,7 @@ def standard_views(n, tier):
         ("rev>slice", [_st(rev), _st(["slice", 1, None, None])]),
         ("cols1:>list", [_st(["all"], [1, None]), _st(["list", order])]),
     ]
-    if tier == "thorough":
+    if full:
         comp = [1 - m for m in mask] if n - sum(mask) >= 1 else mask
         out += [
             ("tail", [_st(["slice", 1, None, None])]),
@@ -961,7 +962,7 @@ def gen_views(tier):
     # ---- 4b. re-targeting sources that are not-yet-flattened views left by an earlier indexing step
     thorough = tier == "thorough"
     # (i) every ordered pair of alphabets (+ the base encoding on either side) x a family of big arrays x every kind of view
-    shapes = VIEW_SHAPES if thorough else VIEW_SHAPES[:4]
+    shapes = VIEW_SHAPES if thorough else VIEW_SHAPES[:2]
     for src in VIEW_SOURCES:
         for dst in VIEW_TARGETS:
             for fn in view_fns(src, dst):
@@ -969,23 +970,24 @@ def gen_views(tier):
                     for si, lens in enumerate(shapes):
                         if ci > 0 and not thorough and si > 0:
                             continue            # quick: the content on which the call may raise on one shape only
-                        for off in ((0, 1) if thorough and len(letters) > 1 else (0,)):
+                        for off in ((0, 1) if thorough and len(letters) > 1 and ci == 0 else (0,)):
                             big = fill(lens, letters, off, lm)
-                            for _, view in standard_views(len(lens), tier):
+                            for _, view in standard_views(len(lens), thorough):
                                 yield {"k": "retarget_view", "src": src, "dst": dst, "fn": fn, "big": big, "view": view}
                     flat = fill((7,), letters, 0, lm)[0]
-                    for view in FLAT_VIEWS:
+                    for view in FLAT_VIEWS if thorough else FLAT_VIEWS[3:]:
                         yield {"k": "retarget_view", "src": src, "dst": dst, "fn": fn, "bigdata": flat, "view": view}
     # (ii) one pair per function x EVERY big array of 2..N rows of length 0..L x every kind of view
-    for src, dst, fn in VIEW_REPRESENTATIVES:
+    #      (thorough: the additional view kinds up to 4 rows only)
+    for src, dst, fn in VIEW_REPRESENTATIVES if thorough else VIEW_REPRESENTATIVES[:3]:
         letters, lm = view_contents(src, dst, fn)[0]
-        for n, L in (((2, 3), (3, 3), (4, 3), (5, 3), (6, 2)) if thorough else ((2, 2), (3, 2), (4, 2))):
+        for n, L in (((2, 3), (3, 3), (4, 3), (5, 2), (6, 2)) if thorough else ((2, 2), (3, 2), (4, 2))):
             for lens in itertools.product(range(L + 1), repeat=n):
                 big = fill(lens, letters, 0, lm)
-                for _, view in standard_views(n, tier):
+                for _, view in standard_views(n, thorough and n <= 4):
                     yield {"k": "retarget_view", "src": src, "dst": dst, "fn": fn, "big": big, "view": view}
     # (iii) one pair per function x two big arrays x EVERY slice / mask / index list (<= 3) / column trim
-    for src, dst, fn in VIEW_REPRESENTATIVES:
+    for src, dst, fn in VIEW_REPRESENTATIVES if thorough else VIEW_REPRESENTATIVES[:2]:
         letters, lm = view_contents(src, dst, fn)[0]
         for lens in ((2, 0, 3, 1, 0, 4), (0, 2, 1, 3)) if thorough else ((2, 0, 3, 1),):
             big = fill(lens, letters, 0, lm)
